@@ -42,7 +42,7 @@ REQUIRED_REACH = ["kwarg:updated-in-place", "kwarg:overrides-default", "basis:ce
                   "basis:facet-interior-side1", "basis:interior-side0", "basis:interior-side1", "trial!=test",
                   "kwarg:dofvector", "kwarg:discretefield", "kwarg:rawarray", "kwarg:scalar", "coef:n", "coef:h", "coef:x",
                   "bare-parameter-integrands", "trial-side0-test-side1", "oriented-facet-set", "kwarg:scalar-types",
-                  "empty-domain"]
+                  "empty-domain", "form-construction-spellings"]
 
 FIELDS = ("value", "grad", "div", "curl", "hess")
 
@@ -643,6 +643,39 @@ def scalar_kinds(ctx, k):
     ctx.check("kwarg-spellings-bitwise", np.array_equal(np.asarray(bq.dx), np.asarray(bn.dx)) and
               (skfem.BilinearForm(lambda u, v, w: u * v).assemble(bq) != skfem.BilinearForm(lambda u, v, w: u * v).assemble(bn)).nnz == 0,
               mech="explicit-quadrature-differs-from-intorder", order=n, **tag)
+    # ways of making a form: decorator with options, a form made of a form, partial application, dtype spellings
+    zc = rng.standard_normal(basis.N) + 1j * rng.standard_normal(basis.N)
+    fz = basis.interpolate(zc)
+
+    def bil_(u, v, w):
+        return (1 + 2j) * u * v + w["f"] * u.grad[0] * v
+
+    def lin_(v, w):
+        return (2 - 1j) * w["f"] * v + v.grad[0]
+
+    def fun_(w):
+        return w["f"] * w["f"] + 1j * w.x[0]
+    A0 = skfem.BilinearForm(bil_, dtype=complex).assemble(basis, f=fz)
+    b0 = skfem.LinearForm(lin_, dtype=complex).assemble(basis, f=fz)
+    s0 = skfem.Functional(fun_, dtype=complex).assemble(basis, f=fz)
+    ctx.check("complex-dtype", A0.dtype == np.complex128 and b0.dtype == np.complex128, mech="complex-form-result-dtype",
+              dtypes=[str(A0.dtype), str(b0.dtype)], **tag)
+    spell = {"decorator-options": (skfem.BilinearForm(dtype=complex)(bil_), skfem.LinearForm(dtype=complex)(lin_), skfem.Functional(dtype=complex)(fun_)),
+             "dtype-np.complex128": (skfem.BilinearForm(bil_, dtype=np.complex128), skfem.LinearForm(lin_, dtype=np.complex128),
+                                     skfem.Functional(fun_, dtype=np.complex128)),
+             "form-of-form": (skfem.BilinearForm(skfem.BilinearForm(bil_, dtype=complex).form, dtype=complex),
+                              skfem.LinearForm(skfem.LinearForm(lin_, dtype=complex).form, dtype=complex),
+                              skfem.Functional(skfem.Functional(fun_, dtype=complex).form, dtype=complex))}
+    for nm, (fb_, fl_, ff_) in spell.items():
+        A1, b1, s1 = fb_.assemble(basis, f=fz), fl_.assemble(basis, f=fz), ff_.assemble(basis, f=fz)
+        ctx.check("kwarg-spellings-bitwise", (A1 != A0).nnz == 0 and np.array_equal(b1, b0) and s1 == s0, mech=f"form-construction:{nm}", **tag)
+    # partial application of a leading argument of the integrand
+    def bil3(c_, u, v, w):
+        return c_ * u * v
+    Ap = skfem.BilinearForm(bil3).partial(2.5).assemble(basis)
+    ctx.close("matrix-vs-dense-reference", Ap.toarray(), 2.5 * M.toarray(), rtol=1e-13, scale=2.5 * float(np.abs(M).max()),
+              mech="form-construction:partial", **tag)
+    ctx.reached("form-construction-spellings")
     ctx.nontrivial("scalar-kinds", kind)
 
 
